@@ -82,7 +82,7 @@ func TestSFReplayAnswerRace(t *testing.T) {
 	select {
 	case err := <-ansDone:
 		t.Logf("/answer completed: %v", err)
-	case <-time.After(3 * time.Second):
+	case <-time.After(12 * time.Second): // the repaired handler gives up after ClientTimeout (10 s)
 		t.Errorf("REPRODUCED: the /answer handler never completes (send on answerChannel with no receiver)")
 	}
 }
